@@ -67,6 +67,24 @@ def run(ctx):
         for _, _, where, _, _ in placements:
             ctx.count("placement:" + where)
         ctx.count("cuts:%d" % len(placements))
+        # a fragment that leaves a section open although the includer is balanced on its own (and the dual: a fragment
+        # that closes a section the includer opened): constructed, not cut
+        opens = [l for l in c.lines if l.strip().startswith("<") and not l.strip().startswith("</") and not l.strip().endswith("/>")]
+        if opens and rng.random() < 0.5:
+            hdr = rng.choice(opens).strip()
+            u = cfgstream.Case()
+            u.sd, u.real, u.elab, u.hnames = c.sd, c.real, c.elab, c.hnames
+            pos = rng.randint(0, len(c.lines))
+            if rng.random() < 0.6:
+                u.lines = c.lines[:pos] + ["%include ufrag2.conf"] + c.lines[pos:]
+                u.files = {"m/ufrag2.conf": ["# opens and never closes", hdr]}
+            else:
+                ty = hdr[1:-1].split()[0]
+                u.lines = c.lines[:pos] + [hdr, "%include ufrag2.conf"] + c.lines[pos:]
+                u.files = {"m/ufrag2.conf": ["</%s>" % ty]}
+            u.meta = {"main": "m/main.conf", "range": None, "inline": c.lines}
+            u.faults = c.faults
+            unb.append(u)
         # an unbalanced cut of the same text
         ur = cutter.unbalanced_ranges(c.lines)
         if ur and rng.random() < 0.4:
